@@ -55,7 +55,7 @@ type c18In struct {
 }
 
 var c18OpKinds = []string{"encode", "decode", "protect-unprotect", "derive-ike", "derive-child", "dh", "transforms", "eap", "eap-mac", "prf-prime", "random", "decode-shared",
-	"decode-modify-encode", "eap-decode-modify", "eap-decode-mac"}
+	"decode-modify-encode", "eap-decode-modify", "eap-decode-mac", "ike-and-children"}
 
 // touchReachable writes to every octet string reachable from v (exported or not, through pointers, interfaces, slices and
 // maps): a decoded value belongs to its caller, who may change it at will; anything it shares with another goroutine's value
@@ -197,10 +197,33 @@ func c18Run(p c18Prog, shared []byte, concurrent bool) []string {
 				res = string(model.JSON(got.Normalize()))
 			case "derive-ike":
 				x := newInfoSA(p.Suite)
-				if e := x.GenerateKeyForIKESA(append([]byte("nonce"), op.Bytes...), append([]byte{1}, op.Bytes...), uint64(op.A), uint64(op.B)); e != nil {
+				ikeNonce := append([]byte("nonce"), op.Bytes...)
+				if op.B%3 == 0 {
+					ikeNonce = bytes.Repeat(append([]byte{byte(op.B)}, op.Bytes...), 512/(1+len(op.Bytes))+1)[:512] // both nonces at their maximum
+				}
+				if e := x.GenerateKeyForIKESA(ikeNonce, append([]byte{1}, op.Bytes...), uint64(op.A), uint64(op.B)); e != nil {
 					return e
 				}
 				res = fmt.Sprintf("%x|%x|%x|%x|%x|%x|%x", x.SK_d, x.SK_ai, x.SK_ar, x.SK_ei, x.SK_er, x.SK_pi, x.SK_pr)
+			case "ike-and-children":
+				// an IKE SA keyed the usual way (two ends of one exchange, or a re-created SA, hold EQUAL keys in different
+				// objects) and three Child SAs derived from it; nonces of up to 520 octets
+				x := newInfoSA(p.Suite)
+				nonce := append([]byte("Ni|Nr"), op.Bytes...)
+				if op.A%3 == 0 {
+					nonce = bytes.Repeat(append([]byte{byte(op.A)}, op.Bytes...), 520/(1+len(op.Bytes))+1)[:520]
+				}
+				if e := x.GenerateKeyForIKESA(nonce, append([]byte{7}, op.Bytes...), uint64(op.A), uint64(op.B)); e != nil {
+					return e
+				}
+				res = fmt.Sprintf("%x|%x", x.SK_d, x.SK_ei)
+				for i := 0; i < 3; i++ {
+					k, e := deriveChild(x, (op.A+i)%3, (op.B+i)%4, append(nonce[:len(nonce):len(nonce)], byte(i)))
+					if e != nil {
+						return e
+					}
+					res += fmt.Sprintf("|%x|%x|%x|%x", k.EncrI2R, k.IntegI2R, k.EncrR2I, k.IntegR2I)
+				}
 			case "derive-child":
 				k, e := deriveChild(sa, op.A%3, op.B%4, op.Bytes)
 				if e != nil {
@@ -211,7 +234,11 @@ func c18Run(p c18Prog, shared []byte, concurrent bool) []string {
 				g := dh.StrToType(ref.DHs[op.A%2].Name)
 				x := new(big.Int).SetBytes(append([]byte{1}, op.Bytes...))
 				pub := g.GetPublicValue(x)
-				sh := g.GetSharedKey(x, new(big.Int).SetInt64(int64(op.B)+2))
+				peer := new(big.Int).SetInt64(int64(op.B) + 2)
+				if op.B%2 == 1 {
+					peer.Add(peer, ref.ModpPrime(ref.DHs[op.A%2].Bits)) // a peer value of p + k: reduced, like any other number
+				}
+				sh := g.GetSharedKey(x, peer)
 				res = fmt.Sprintf("%x|%x", pub, sh)
 			case "transforms":
 				e := encr.StrToType(ref.Encrs[op.A%3].Name)
@@ -567,9 +594,35 @@ func c18Malformed() []model.Bytes {
 	return out
 }
 
+// c18OddEAP: EAP-AKA' packets as they come - well-formed ones with different contents, and the same cut short by one to three
+// octets, extended by one octet (a lone attribute type at the end), with the attribute length of the last attribute off by one;
+// the EAP length field says what the packet has.
+func c18OddEAP() []model.Bytes {
+	var out []model.Bytes
+	fix := func(b model.Bytes) model.Bytes {
+		if len(b) >= 4 {
+			b[2], b[3] = byte(len(b)>>8), byte(len(b))
+		}
+		return b
+	}
+	for id := byte(0); id < 12; id++ {
+		w := c18ReceivedChallenge(id)
+		out = append(out, w)
+		for cut := 1; cut <= 3; cut++ {
+			out = append(out, fix(append(model.Bytes(nil), w[:len(w)-cut]...)))
+		}
+		out = append(out, fix(append(append(model.Bytes(nil), w...), 11)), fix(append(append(model.Bytes(nil), w...), 1, 0)))
+		x := append(model.Bytes(nil), w...)
+		x[9]++
+		out = append(out, x)
+	}
+	return out
+}
+
 var c18ErrorPaths = probe.Define("C18", "error-paths", func(t *rapid.T) c18ErrIn { panic("enumerated") }, func(in c18ErrIn) probe.Outcome {
+	eaps := c18OddEAP()
 	decodeAll := func(start int) []string {
-		res := make([]string, len(in.Inputs))
+		res := make([]string, len(in.Inputs)+len(eaps))
 		for k := range in.Inputs {
 			i := (start + k) % len(in.Inputs)
 			err := probe.Try(func() error { return new(message.IKEMessage).Decode(probe.Exact(in.Inputs[i])) })
@@ -577,6 +630,16 @@ var c18ErrorPaths = probe.Define("C18", "error-paths", func(t *rapid.T) c18ErrIn
 				res[i] = "error: " + firstLine(err.Error())
 			} else {
 				res[i] = "ok"
+			}
+			// in between: EAP packets, well-formed and odd ones (cut short, one octet too many, lengths off by a little)
+			j := (start*7 + k) % len(eaps)
+			pkt := new(eap.EAP)
+			if err := probe.Try(func() error { return pkt.Unmarshal(probe.Exact(eaps[j])) }); err != nil {
+				res[len(in.Inputs)+j] = "error: " + firstLine(err.Error())
+			} else if m, err := bridge.FromLibEAP(pkt); err != nil {
+				res[len(in.Inputs)+j] = "unreadable: " + firstLine(err.Error())
+			} else {
+				res[len(in.Inputs)+j] = string(model.JSON(m.Normalize()))
 			}
 		}
 		return res
@@ -599,8 +662,8 @@ var c18ErrorPaths = probe.Define("C18", "error-paths", func(t *rapid.T) c18ErrIn
 	want := decodeAll(0)
 	for g := range got {
 		for i := range want {
-			if got[g][i] != want[i] {
-				return probe.Fail("goroutine %d, malformed input %d: outcome when decoded concurrently differs from the outcome when decoded alone:\n alone:      %s\n concurrent: %s", g, i, want[i], got[g][i])
+			if got[g][i] != want[i] && got[g][i] != "" && want[i] != "" {
+				return probe.Fail("goroutine %d, input %d (malformed datagrams first, EAP packets behind them): outcome when decoded concurrently differs from the outcome when decoded alone:\n alone:      %s\n concurrent: %s", g, i, model.Clip([]byte(want[i])), model.Clip([]byte(got[g][i])))
 			}
 		}
 	}
